@@ -28,11 +28,13 @@ def sequences(tier, rng):
     n_seq = 300 if tier == "quick" else 3000
     for s in range(n_seq):
         sids = gens.STORY_IDS[:rng.randrange(1, 5)]
-        ro = gens.make_ro(sids, layout=rng.choice(gens.RO_LAYOUTS), timing=rng.choice(gens.TIMINGS), message_id=1)
+        # the roCreate need not carry the lowest message ID: the other messages are applied in ascending order all the same
+        ro_mid = 1 if s % 5 else rng.choice([12, 15, 30])
+        ro = gens.make_ro(sids, layout=rng.choice(gens.RO_LAYOUTS), timing=rng.choice(gens.TIMINGS), message_id=ro_mid)
         state = to_text(ro)
         if s % 12 == 7:
             # the roCreate document is a completed running order that was written out earlier
-            done = impl.run_add(state, to_text(ro_delete(1)))
+            done = impl.run_add(state, to_text(ro_delete(ro_mid)))
             state = X.tree_to_string(done['tree'])
         docs = [state]
         counter = [0]
